@@ -15,15 +15,33 @@ import (
 // name has to be unique among the functions, methods and fields of the file (the expansion happens before type
 // checking, so the receiver type of a call is not known).
 func Accessors(f *ast.File) int {
+	// an accessor whose body calls another accessor becomes a pure read once that call is expanded: repeat
+	total := 0
+	for round := 0; round < 4; round++ {
+		n := accessorsOnce(f)
+		total += n
+		if n == 0 {
+			break
+		}
+	}
+	return total
+}
+
+func accessorsOnce(f *ast.File) int {
 	names := map[string]int{}
 	for _, d := range f.Decls {
 		switch x := d.(type) {
 		case *ast.FuncDecl:
 			names[x.Name.Name]++
 		case *ast.GenDecl:
+			// a struct field of function type can be called like a method: it shares the name space. Fields of other
+			// types cannot (`p.pt.offset()` does not compile), so `offset` the field and `offset()` the accessor coexist.
 			ast.Inspect(x, func(n ast.Node) bool {
 				if fl, ok := n.(*ast.FieldList); ok {
 					for _, fd := range fl.List {
+						if !funcTyped(f, fd.Type) {
+							continue
+						}
 						for _, nm := range fd.Names {
 							names[nm.Name]++
 						}
@@ -151,4 +169,32 @@ func cloneRead(e ast.Expr, recv, to string, pos token.Pos) ast.Expr {
 		return &ast.CallExpr{Fun: &ast.Ident{NamePos: pos, Name: "len"}, Lparen: pos, Args: []ast.Expr{cloneRead(x.Args[0], recv, to, pos)}, Rparen: pos}
 	}
 	return e
+}
+
+// funcTyped: the type expression is a function type, or a name declared as one in the file (or a name the file does not
+// declare: unknown, treated as possibly a function).
+func funcTyped(f *ast.File, t ast.Expr) bool {
+	switch x := t.(type) {
+	case *ast.FuncType:
+		return true
+	case *ast.Ident:
+		for _, d := range f.Decls {
+			if gd, ok := d.(*ast.GenDecl); ok {
+				for _, sp := range gd.Specs {
+					if ts, ok := sp.(*ast.TypeSpec); ok && ts.Name.Name == x.Name {
+						_, isFunc := ts.Type.(*ast.FuncType)
+						return isFunc
+					}
+				}
+			}
+		}
+		switch x.Name {
+		case "bool", "string", "int", "int8", "int16", "int32", "int64", "uint", "uint8", "uint16", "uint32", "uint64", "uintptr", "byte", "rune", "float32", "float64", "error", "any":
+			return false
+		}
+		return true
+	case *ast.ParenExpr:
+		return funcTyped(f, x.X)
+	}
+	return false
 }
